@@ -1011,6 +1011,18 @@ class Run:
                 raise Unsupported('`%s` on abstract bytes' % pe(e))
             u1, u2 = [x & 255 for x in u1], [x & 255 for x in u2]
             return (u1 > u2) - (u1 < u2)
+        if fn in ('atoi', 'atol', 'atoll', 'atof') and not e.get('clsp') and len(e.get('a', [])) == 1:
+            # glibc on LP64: atoi = (int) strtol(s, 0, 10), atol / atoll = strtol / strtoll (saturating), atof = strtod
+            import re as _re
+            pv = self.val(e['a'][0])
+            txt = ''.join(chr(c & 255) for c in self.cstring(pv, e.get('l')))
+            if fn == 'atof':
+                m_ = _re.match(r'\s*[-+]?(\d+\.?\d*([eE][-+]?\d+)?|\.\d+([eE][-+]?\d+)?)', txt)
+                return float(m_.group(0)) if m_ else 0.0
+            m_ = _re.match(r'\s*[-+]?\d+', txt)
+            v_ = int(m_.group(0)) if m_ else 0
+            v_ = max(-(1 << 63), min((1 << 63) - 1, v_))
+            return wrap(v_, {'bits': 32, 'sg': True}) if fn == 'atoi' else v_
         if fn == 'strcpy' and not e.get('clsp') and len(e.get('a', [])) == 2:
             dst, src = self.val(e['a'][0]), self.val(e['a'][1])
             if not (isinstance(dst, tuple) and dst[0] == 'P' and isinstance(src, tuple) and src[0] == 'P'):
